@@ -17,7 +17,7 @@ RULE = (
 )
 ASSUMPTIONS = [
     "co-running strategies share streams (same listener arguments) and one simulated client without transaction limit",
-    "80% World A (30% of its single-market cases replay recorded race data through flumine's SimulatedSportsDataMiddleware, with the exception injected into check_sports_data/process_sports_data in 60% of those); 20% World B live sessions (exception injected into check/process market book, process_new_market, process_orders during current-orders processing, custom-event callbacks and, in a third of them, process_raw_data of a raw-data (DataStream) strategy; delivery of every market update / raw datum to the other strategies checked); in another quarter check_sports_data/process_sports_data of a race-subscription strategy (rcm messages through the real bflw race stream; cricket data is not generated)",
+    "80% World A (30% of its single-market cases replay recorded race data through flumine's SimulatedSportsDataMiddleware, with the exception injected into check_sports_data/process_sports_data in 60% of those); 20% World B live sessions (exception injected into check/process market book, process_new_market, process_orders during current-orders processing, custom-event callbacks, an extra market middleware in 40% of them (the exception thrown from it in half of those) and, in a third of them, process_raw_data of a raw-data (DataStream) strategy; delivery of every market update / raw datum to the other strategies checked); in another quarter check_sports_data/process_sports_data of a race-subscription strategy (rcm messages through the real bflw race stream; cricket data is not generated)",
     "process_closed_market is not among the callbacks the property lists and is not injected",
 ]
 from . import C11 as _c11
@@ -35,6 +35,10 @@ class CallOrderMonitor(backtest.Monitor):
 
     def on_update_start(self, mid, j, mb):
         self.phase = "start"
+
+    def on_main_event(self, ev):  # World B: one market-book event = one update
+        if ev.EVENT_TYPE.name == "MARKET_BOOK":
+            self.phase = "start"
 
     def on_after_matching(self, market):
         if self.phase == "strategies":
@@ -79,6 +83,12 @@ def generate_live(rng):
                 if u["st"] != "CLOSED" and rng.random() < 0.6:
                     u["rcm"] = k + 1
         sc["inject"] = {"strategy": "S5", "kind": rng.choice(["sports_check", "sports"]), "nth": rng.randint(1, 6), "flumine": rng.random() < 0.3}
+    if rng.random() < 0.4:
+        # an extra market middleware in the live loop; in half of these the exception is thrown from the middleware instead
+        sc["middlewares"] = [{"name": "mw"}]
+        if rng.random() < 0.5:
+            sc["middlewares"][0].update(raise_at=rng.randint(1, 8), flumine=rng.random() < 0.3)
+            sc["inject"] = {"strategy": "-", "kind": "middleware", "nth": 0}
     sc["custom_events"] = [{"id": "ce%d" % k, "after_mcm": rng.randint(1, 6), "raise": rng.random() < 0.6, "flumine": rng.random() < 0.3} for k in range(rng.choice([0, 1, 2]))]
     sc["live_c13"] = True
     return sc
@@ -117,6 +127,14 @@ def execute_live(scenario):
             got = [c for c in a.calls if c[0] == "check" and c[1] == m["id"]]
             if got != exp:
                 res.violate(ID, "C13.delivery", "live:other-strategy-delivery-changed:exception-in-%s" % scenario["inject"]["kind"], strategy=a.name, expected=len(exp), got=len(got), fired=fired)
+    for mw in run.middlewares:
+        # the middleware is called once per delivered open update, whatever was thrown (by it or by a strategy) before
+        for m in scenario["markets"]:
+            n = run.market_cursor[m["id"]]
+            exp = [(m["id"], u["pt"]) for u in m["updates"][:n] if u["st"] != "CLOSED"]
+            got = [c for c in mw.calls if c[0] == m["id"]]
+            if got != exp:
+                res.violate(ID, "C13.delivery", "live:middleware-calls-changed:exception-in-%s" % scenario["inject"]["kind"], expected=len(exp), got=len(got), fired=fired)
     want_custom = [ce["id"] for ce in scenario.get("custom_events") or () if ce["after_mcm"] <= sum(run.market_cursor.values())]
     if sorted(run.custom_calls) != sorted(want_custom):
         res.violate(ID, "C13.delivery", "live:custom-event-callbacks", got=run.custom_calls, expected=want_custom)
